@@ -1142,16 +1142,20 @@ theorem simF_call_other {k : Nat} {h : String} {args : List Expr} {m : Nat → N
     obtain ⟨F, rfl⟩ : ∃ F, f = F + 2 := ⟨f - 2, by omega⟩
     exact ⟨s, hexec F, hrel.trace⟩
 
-/-- a call whose callee symbol denotes `force` (proved in `SimF2Lazy.lean` from the claims at lower fuel) -/
-def FClaimG (k : Nat) : Prop :=
+/-- a call whose callee symbol denotes the Go builtin `name` (for `force`, `apply`, `map`: proved in `SimF2Lazy.lean`,
+`SimF2Apply.lean` from the claims at lower fuel) -/
+def FClaimH (k : Nat) (name : String) : Prop :=
   ∀ (h : String) (args : List Expr), FaList args = true → ∀ (m : Nat → Nat) (s : St) (rs : Ref.St) (env : Nat)
     (pre post : List Instr) (i : Nat), RelF m s rs env → Seg s pre [.callExpr (.sym h) args] post →
-    lexLookup s h = some (i, .builtin "force") →
-    SimF [.callExpr (.sym h) args] m s rs env (refCall k (.builtin "force") args env rs)
+    lexLookup s h = some (i, .builtin name) →
+    SimF [.callExpr (.sym h) args] m s rs env (refCall k (.builtin name) args env rs)
+
+/-- a call of `force` -/
+abbrev FClaimG (k : Nat) : Prop := FClaimH k "force"
 
 /-- **A call by name**: callee by lookup; a closure object, a first-order builtin, or something
 that cannot be called. -/
-theorem simF_call {k : Nat} (hA : FClaimA (k + 1)) (hU : FClaimU (k + 1)) (hG : FClaimG k) {h : String} (hh : okSym h = true)
+theorem simF_call {k : Nat} (hA : FClaimA (k + 1)) (hU : FClaimU (k + 1)) (hG : ∀ name, hoB name → FClaimH k name) {h : String} (hh : okSym h = true)
     {args : List Expr} (hargs : FaList args = true) {m : Nat → Nat} {s : St} {rs : Ref.St} {env : Nat}
     {pre post : List Instr} (hrel : RelF m s rs env) (hseg : Seg s pre [.callExpr (.sym h) args] post) :
     SimF [.callExpr (.sym h) args] m s rs env (Ref.eval (k + 2) (.call (.sym h) args) env rs) := by
@@ -1176,9 +1180,7 @@ theorem simF_call {k : Nat} (hA : FClaimA (k + 1)) (hU : FClaimU (k + 1)) (hG : 
     | builtin name =>
       rcases hv.builtin with hn | hn
       · exact simF_call_builtin hA hn hargs hrel hseg hl
-      · have hn' : name = "force" := hn
-        subst hn'
-        exact hG h args hargs m s rs env pre post i hrel hseg hl
+      · exact hG name hn h args hargs m s rs env pre post i hrel hseg hl
     | arr r => exact simF_call_arr hA hargs hrel hseg hl
     | nil => exact simF_call_other hrel hseg hl hv (fun _ e => by cases e) (fun _ e => by cases e) (fun _ e => by cases e)
     | bool b => exact simF_call_other hrel hseg hl hv (fun _ e => by cases e) (fun _ e => by cases e) (fun _ e => by cases e)
